@@ -25,3 +25,16 @@ Proof.
     match goal with |- context [next_sub ?t] => destruct (next_sub t) as [b t'] eqn:Hn end;
     destruct b; cbn; try rewrite Hs; try reflexivity; apply IH.
 Qed.
+
+(** The conductor loop: [ExecRun.poll] (hand-written, what every theorem is
+    about) is one iteration of the text generated from Conductor.monitor_study,
+    started with the poll's scripted submission outcomes and an empty event log;
+    [ExecRun.run] iterates it exactly while the status is RUNNING. *)
+From MWF Require Import Exec.ExecGen Exec.ExecRun.
+
+Theorem poll_is_generated c g s p :
+  poll c g s p = monitor_iter_gen c g p (set_evs (set_subs s (psubs p)) []).
+Proof.
+  unfold poll, monitor_iter_gen.
+  destruct (execute_ready_steps_gen c g p _) as [s' r]. reflexivity.
+Qed.
